@@ -47,9 +47,9 @@ VARIABLES
     raw, exp, sobj,             \* Validator fields per object; schema objects (pruned entries)
     args,                       \* the dictionaries the callers hold (the arguments)
     fin, hist, sched,           \* call just completed per thread; history and schedule (when Record)
-    running, last, sid          \* scheduler: thread inside a segment; last stepper; script id
+    running, sid                \* scheduler: thread inside a segment; script id
 
-vars == <<pc, cur, ncalls, buf, cdict, mt, raw, exp, sobj, args, fin, hist, sched, running, last, sid>>
+vars == <<pc, cur, ncalls, buf, cdict, mt, raw, exp, sobj, args, fin, hist, sched, running, sid>>
 
 -----------------------------------------------------------------------------
 (* Documents                                                               *)
@@ -75,6 +75,9 @@ FindKeys  == {"all", "some"}                             \* key every item has /
 
 Comment(d, k)   == [doc |-> d, line |-> k]
 CommentsOf(d)   == {Comment(d, k) : k \in DocTable[d].com}
+
+\* the harness builds one concrete Mapfile per abstract document from this table (printed once per run)
+ASSUME PrintT(ToJson([doctable |-> DocTable]))
 
 -----------------------------------------------------------------------------
 (* Worker objects                                                          *)
@@ -164,7 +167,6 @@ CanRun(t) == running = 0 \/ running = t
 Step(t, newpc, c) ==
     /\ pc' = [pc EXCEPT ![t] = newpc]
     /\ cur' = [cur EXCEPT ![t] = IF newpc = "idle" THEN NoCall ELSE c]
-    /\ last' = t
     /\ running' = IF AtSeam(t, newpc, c) THEN 0 ELSE t
     /\ sched' = IF Record /\ Mode = "script" /\ AtSeam(t, newpc, c)
                 THEN Append(sched, [t |-> t, at |-> IF newpc = "idle" THEN "end" ELSE newpc])
@@ -406,7 +408,6 @@ Init ==
     /\ hist = <<>>
     /\ sched = <<>>
     /\ running = 0
-    /\ last = 0
     /\ sid \in IF Mode = "script" THEN 1..Len(Scripts) ELSE {0}
 
 Spec == Init /\ [][Next]_vars
@@ -416,9 +417,11 @@ Spec == Init /\ [][Next]_vars
 
 \* a dictionary held by a caller changes only in a step of a call of one of the two documented
 \* mutating kinds, and only the dictionary passed to that call
+\* (every step moves the program counter of exactly the thread that takes it)
 ArgsStep ==
     \A d \in DictDocs :
-        args'[d] # args[d] => (cur[last'].kind \in MutatingKinds /\ cur[last'].doc = d)
+        args'[d] # args[d] =>
+            \E t \in Threads : pc'[t] # pc[t] /\ cur[t].kind \in MutatingKinds /\ cur[t].doc = d
 ArgsUnchanged == [][ArgsStep]_vars
 
 \* every completed call returned what a sequential call on fresh workers returns
